@@ -349,6 +349,7 @@ type fnCtx struct {
 	loopVars   map[types.Object]bool // variables of the enclosing range/for loops (immutable inside the body)
 	loopBodies []*ast.BlockStmt
 	aliasInd   int
+	scope      ast.Node                  // the function body (or the statements of the block) being translated
 	safeIdx    map[string]bool           // index expressions already evaluated (without panic) by the left operand of the enclosing && / ||
 	alias      map[types.Object]ast.Expr // `p := &s[i]`: p stands for the element s[i] (notes/go2lean.md "Aliases")
 	// block mode
